@@ -381,10 +381,12 @@ func (p *contractPayment) OpSettle(account store.Account, paymentAmount *big.Int
 	// that does not say whether the node has it.
 	var signed *types.Transaction
 	opts := *p.transactOpts
-	opts.Signer = func(signer types.Signer, from common.Address, tx *types.Transaction) (*types.Transaction, error) {
-		tx, err := p.transactOpts.Signer(signer, from, tx)
-		signed = tx
-		return tx, err
+	if sign := p.transactOpts.Signer; sign != nil {
+		opts.Signer = func(signer types.Signer, from common.Address, tx *types.Transaction) (*types.Transaction, error) {
+			tx, err := sign(signer, from, tx)
+			signed = tx
+			return tx, err
+		}
 	}
 	txn, err := p.contract.OpSettle(&opts, addr, paymentAmount, newBalance)
 	if err != nil && signed != nil && p.knowsTransaction(signed.Hash()) {
